@@ -363,12 +363,13 @@ def _judge(ctx, cases, tag):
 def run(ctx):
     consts = dict(lattice(ctx.quick), Ops=set(OPS))
     ctx.rule = ("TLC enumerates the whole input lattice of 22 utilities (SparseOpsEnum: every csr/csc storage structure "
-                f"with <= {consts['ML']} lines, cross dimension <= {consts['MX']}, <= {consts['K1']} stored entries "
-                f"({consts['K2']} per matrix for two-matrix utilities), unsorted lines / empty lines / stored zeros; index "
-                "arrays with repetitions, boolean masks, python and numpy ints; coo blocks; block lists); every emitted "
-                "input is executed on the real code, its raw storage result is judged by TLC against the dense "
-                "reference (J_SparseOps, 22 clauses); plus seeded random larger inputs judged the same way; "
-                "a case is non-trivial when its matrix argument has stored entries")
+                f"with <= {consts['ML']} lines, cross dimension <= {consts['MX']} ({consts['MX2']} for the two-matrix "
+                f"utilities), <= {consts['K1']} stored entries ({consts['K2']} / {consts['KB']} for the two matrices of "
+                "merge/stack), position-coded data, unsorted lines / empty lines / empty columns, stored zeros where values "
+                "matter; index arrays with repetitions, boolean masks, python and numpy ints; coo blocks; block lists); "
+                "every emitted input is executed on the real code, its raw storage result is judged by TLC against the "
+                "dense reference (J_SparseOps, 22 clauses); plus seeded random larger inputs (shapes up to 6-8, values "
+                "-9..9) judged the same way; a case is non-trivial when its matrix argument has stored entries")
     ctx.assumptions = ["integer data only (exact comparison)", "no duplicate (row, col) entries in inputs",
                        "zero-dimension blocks are outside the verdict family (judged for information only)",
                        "block_diag_index(m) without n is read as the csr column indices of the square block pattern "
